@@ -34,12 +34,13 @@ LISTS = {
     'm2': [('B', 'C'), ('A',)],
     'm3': [('C', 'A'), ('A', 'B'), ('B', 'C')],
     'm4': [('A', 'B'), ('C',)],
+    'm1p': [('A', 'B')],    # the projection of m1 (also in m3, m4) measured with a prefix-sum query of the same shape
 }
 ALPHABET = [
     ('m1', 100.0, 'MD', False),
     ('m2', 50.0, 'RDA', True),
     ('m3', None, 'IG', False),
-    ('m1', None, 'RDA', False),
+    ('m1p', None, 'RDA', False),
     ('m2', 100.0, 'MD', False),
     ('m3', 50.0, 'MD', True),
 ]
@@ -60,7 +61,7 @@ def jobs(tier, seed):
             for b in range(len(ALPHABET)):
                 out.append({'mode': 'hist', 'zc': zc, 'prefix': [a, b], 'depth': depth, 'seed': seed})
         out.append({'mode': 'hist', 'zc': zc, 'prefix': [], 'depth': 1, 'seed': seed})
-    for l1, l2 in itertools.permutations(list(LISTS), 2):
+    for l1, l2 in itertools.permutations([l for l in LISTS if l != 'm1p'], 2):
         for eng in ['MD', 'RDA', 'IG']:
             out.append({'mode': 'warm', 'l1': l1, 'l2': l2, 'engine': eng, 'seed': seed})
             if eng != 'RDA' or l1 == 'm3':
@@ -73,7 +74,7 @@ def jobs(tier, seed):
 def problem(listname, seed):
     li = list(LISTS).index(listname)
     sig = [2.0, 1.0, 0.5] if listname == 'm2' else None
-    return M.Problem(M.ATTRS3, M.SIZES3, LISTS[listname], li, 'pos', seed, total=70.0, noise_mult=1.0, sigmas=sig)
+    return M.Problem(M.ATTRS3, M.SIZES3, LISTS[listname], li, 'pos', seed, total=70.0, noise_mult=1.0, sigmas=sig, kinds=['prefix'] if listname == 'm1p' else None)
 
 
 def answers(model):
